@@ -238,18 +238,19 @@ def check_enu_matrices(ctx: Ctx):
             triad_oracle(ctx, e2t[i], lats[i], lons[i], {**case, "i": i}, "rotation.enu2trs")
 
 
-def triad_oracle(ctx, e2t, lat, lon, case, where):
-    """columns of enu2trs: Up = (cos lat cos lon, cos lat sin lon, sin lat); East ⟂ z and Up; North = Up × East"""
+def triad_oracle(ctx, e2t, lat, lon, case, where, lat_tol=0.0, lon_tol=0.0):
+    """columns of enu2trs: Up = (cos lat cos lon, cos lat sin lon, sin lat); East ⟂ z and Up; North = Up × East.
+    (lat, lon) are the true geodetic coordinates of the reference position, known to lat_tol / lon_tol radians."""
     east, north, up = e2t[:, 0], e2t[:, 1], e2t[:, 2]
     n_hat = np.array([math.cos(lat) * math.cos(lon), math.cos(lat) * math.sin(lon), math.sin(lat)])
-    if np.max(np.abs(up - n_hat)) > 4e-16:
+    if np.max(np.abs(up - n_hat)) > 4e-16 + lat_tol + lon_tol * abs(math.cos(lat)):
         gviolate(ctx, "up=normal(lat,lon)", f"{where}: Up column {up.tolist()} is not (cos lat cos lon, cos lat sin lon, sin lat) at lat={lat!r}, lon={lon!r}", case)
     if east[2] != 0 or abs(float(np.dot(east, up))) > 4e-16:
         gviolate(ctx, "east-perp-axis-and-up", f"{where}: East {east.tolist()} is not perpendicular to the z axis and Up", case)
     if np.max(np.abs(np.cross(up, east) - north)) > 4e-16:
         gviolate(ctx, "north=up x east", f"{where}: North {north.tolist()} != Up x East", case)
     # East points towards increasing longitude: (-sin lon, cos lon, 0)
-    if np.max(np.abs(east - np.array([-math.sin(lon), math.cos(lon), 0.0]))) > 4e-16:
+    if lon_tol < 1e-3 and np.max(np.abs(east - np.array([-math.sin(lon), math.cos(lon), 0.0]))) > 4e-16 + lon_tol:
         gviolate(ctx, "east=d/dlon", f"{where}: East {east.tolist()} is not (-sin lon, cos lon, 0)", case)
 
 
@@ -384,9 +385,17 @@ def one_frame(ctx, case, ell, E, shape, ref_sys, llh_rows, trs_rows, dvecs, dvel
             proj = np.array([np.dot(d, east), np.dot(d, north), np.dot(d, up)])
             if float(np.max(np.abs(proj - enu[i][sl]))) > REL * nd + 1e-300:
                 gviolate(ctx, "enu=projections-on-triad", f"enu components {enu[i][sl].tolist()} are not the projections {proj.tolist()} on East/North/Up", {**case, "i": i, "part": part})
-        # the triad of the Position object is the geodetic one
-        lat, lon, h0 = llh_of(T, trs_rows[i], E)
-        triad_oracle(ctx, e2t[i], lat, lon, {**case, "i": i}, "Position.enu2trs")
+        # the triad of the Position object is the geodetic one.  Ground truth: the geodetic coordinates the reference was
+        # generated from (trs_rows = llh2trs(llh_rows) to ~1 ulp); when the reference is handed over in TRS the frame
+        # goes through the one-step trs2llh, whose own accuracy (C05: 1e-6 m near, 2 mm far) bounds the angles
+        lat, lon, h0 = llh_rows[i]
+        if ref_sys == "llh" and not six:
+            lat_tol = lon_tol = 0.0
+        else:
+            pos_tol = (1e-6 if abs(h0) <= 1e5 else 2e-3) + 4 * math.ulp(E.a + abs(h0))
+            lat_tol = pos_tol / (E.b + h0)
+            lon_tol = pos_tol / max((E.a + h0) * abs(math.cos(lat)), 1e-30)
+        triad_oracle(ctx, e2t[i], lat, lon, {**case, "i": i}, "Position.enu2trs", lat_tol, lon_tol)
         # Up is the ellipsoid normal at the reference position: moving along Up changes only the height, by the distance moved
         up = e2t[i][:, 2]
         for step in (1000.0, -500.0):
@@ -396,13 +405,14 @@ def one_frame(ctx, case, ell, E, shape, ref_sys, llh_rows, trs_rows, dvecs, dvel
             lat2, lon2, h2 = llh_of(T, moved, E)
             R = E.a + abs(h0)
             dlon = abs((lon2 - lon + PI) % (2 * PI) - PI)
-            if abs(h2 - (h0 + step)) > 1e-6 or abs(lat2 - lat) * R > 1e-5 or dlon * R * math.cos(lat) > 1e-5:
+            ptol = (1e-6 if abs(h0) + abs(step) <= 1e5 else 2e-3) * 2 + 1e-6
+            if abs(h2 - (h0 + step)) > ptol or abs(lat2 - lat) * R > 10 * ptol or dlon * R * math.cos(lat) > 10 * ptol:
                 gviolate(ctx, "up=ellipsoid-normal", f"moving {step} m along Up on {ell} changes (lat, lon, h) from {(lat, lon, h0)} to {(lat2, lon2, h2)}", {**case, "i": i})
         # … and parallel to the gradient of x²/a² + y²/a² + z²/b² at the foot point
         foot = np.asarray(T.llh2trs(np.array([lat, lon, 0.0]), E), dtype=float).reshape(-1, 3)[0]
         grad = np.array([foot[0] / E.a**2, foot[1] / E.a**2, foot[2] / E.b**2])
         grad = grad / np.linalg.norm(grad)
-        if float(np.max(np.abs(grad - up))) > 1e-12:
+        if float(np.max(np.abs(grad - up))) > 1e-14 + lat_tol + lon_tol * abs(math.cos(lat)):
             gviolate(ctx, "up=gradient-of-ellipsoid", f"Up {up.tolist()} is not the unit gradient {grad.tolist()} of the {ell} quadric at the foot point", {**case, "i": i})
         # enu_east/north/up properties
         try:
@@ -539,7 +549,7 @@ def one_acr(ctx, case, shape, states, deltas):
             if worst(back[i][sl], mb[sl]) > tol:
                 gdisagree(ctx, "delta_acr2trs_posvel (Float model)", {**case, "i": i, "part": part}, mb[sl], back[i][sl].tolist())
         # ---- oracle
-        why = is_rotation(t2a[i], tol=Fraction(1, 10**12))
+        why = is_rotation(t2a[i], tol=Fraction(max(1e-13, 4e-15 / max(sin_rv, 1e-12))))
         if why:
             gviolate(ctx, "proper-rotation:trs2acr", f"trs2acr is not a proper rotation: {why}", {**case, "i": i})
         if not np.array_equal(a2t[i], t2a[i].T):
@@ -564,14 +574,17 @@ def one_acr(ctx, case, shape, states, deltas):
             if float(np.max(np.abs(proj - acr[i][sl]))) > (REL + ttol) * nd + 1e-300:
                 gviolate(ctx, "acr=projections-on-triad", f"acr components {acr[i][sl].tolist()} are not the projections {proj.tolist()} on along/cross/radial", {**case, "i": i, "part": part})
     # shapes: one state as (6,), (1,6) and as row 0 of the array give the same numbers
+    r0, v0 = np.array(states[0][0]), np.array(states[0][1])
+    sin0 = float(np.linalg.norm(np.cross(r0 / np.linalg.norm(r0), v0 / np.linalg.norm(v0))))
+    stol = 16 * 2.3e-16 / max(sin0, 1e-12)
     for sh in ("1d", "1xk"):
         ref1 = PosVel(as_shape([list(states[0][0]) + list(states[0][1])], sh), "trs")
         d1 = PosVelDelta(as_shape([deltas[0]], sh), "trs", ref_pos=ref1)
         got = np.asarray(d1.acr, dtype=float).ravel()
-        if got.shape != acr[0].shape or float(np.max(np.abs(got - acr[0]))) > 1e-9 * float(np.linalg.norm(deltas[0])):
+        if got.shape != acr[0].shape or float(np.max(np.abs(got - acr[0]))) > (stol + 1e-15) * 4 * float(np.linalg.norm(deltas[0])):
             gviolate(ctx, f"shape-consistency:delta.acr:{sh}", f"delta.acr of one state given as {sh} is {got.tolist()} but {acr[0].tolist()} as row of an array", {**case, "as": sh})
         m1 = np.asarray(ref1.trs2acr, dtype=float).reshape(3, 3)
-        if float(np.max(np.abs(m1 - t2a[0]))) > 1e-12:
+        if float(np.max(np.abs(m1 - t2a[0]))) > stol:
             gviolate(ctx, f"shape-consistency:trs2acr:{sh}", f"trs2acr of one state given as {sh} is {m1.tolist()} but {t2a[0].tolist()} as row of an array", {**case, "as": sh})
 
 
@@ -644,7 +657,8 @@ def check_azel(ctx: Ctx):
             if not (-PI <= az[i] <= PI and -PI / 2 <= el[i] <= PI / 2 and 0 <= zd[i] <= PI):
                 gviolate(ctx, "azel-ranges", f"angles out of range: az={float(az[i])!r} el={float(el[i])!r} zd={float(zd[i])!r}", {**case, "i": i})
             rec = np.array([math.cos(el[i]) * math.sin(az[i]), math.cos(el[i]) * math.cos(az[i]), math.sin(el[i])])
-            if float(np.max(np.abs(rec - np.array([e_c, n_c, u_c])))) > 10 * dirtol + 1e-12:
+            # cos(el) loses everything below sqrt(eps) next to the zenith/nadir (asin is ill-conditioned at +-1)
+            if float(np.max(np.abs(rec - np.array([e_c, n_c, u_c])))) > 10 * dirtol + 1e-12 + 4.5e-16 / max(horiz, 1.5e-8):
                 gviolate(ctx, "azel-reconstruct-direction", f"(cos el sin az, cos el cos az, sin el) = {rec.tolist()} is not the target direction {[e_c, n_c, u_c]} in ENU", {**case, "i": i})
 
 
